@@ -876,7 +876,8 @@ def position(N: int, offset: int = 0, *, dtype: LayerType = None) -> Qobj:
     a = destroy(N, offset=offset, dtype=dtype)
     position = np.sqrt(0.5) * (a + a.dag())
     position.isherm = True
-    position._isunitary = False
+    # Only sqrt((1 + offset)/2) * sigma_x, for N = 2, can be unitary.
+    position._isunitary = (N == 2 and offset == 1)
     return position.to(dtype)
 
 
@@ -906,7 +907,8 @@ def momentum(N: int, offset: int = 0, *, dtype: LayerType = None) -> Qobj:
     a = destroy(N, offset=offset, dtype=dtype)
     momentum = -1j * np.sqrt(0.5) * (a - a.dag())
     momentum.isherm = True
-    momentum._isunitary = False
+    # Only sqrt((1 + offset)/2) * sigma_y, for N = 2, can be unitary.
+    momentum._isunitary = (N == 2 and offset == 1)
     return momentum.to(dtype)
 
 
